@@ -91,6 +91,7 @@ class Gen:
         self.anon = 0
         self.inp = False
         self.unl = [False, False]
+        self.seq = 0
         self.late = False       # second half of the history: the blueprints may be unloaded
 
     def new(self, kind, size=0):
@@ -255,11 +256,13 @@ class Gen:
         elif k == "call":
             ao = self.alive_objs()
             o = r.choice(ao) if ao and r.chance(9, 10) else r.below(NOBJ)
-            q, st, a, b = r.below(NCALL), r.below(2), self.pick_slot(), self.pick_slot()
+            # callback: 0 drops its arguments, 1 keeps the first, 2 raises an error, 3 destructs its own object
+            q, st, a, b = r.below(NCALL), r.weighted([(0, 4), (1, 4), (2, 2), (3, 2)]), self.pick_slot(), self.pick_slot()
             if o in ao and self.calls[q] is None:
-                if st and not self.can_hold(self.obj[o], S[a]):
+                if st == 1 and not self.can_hold(self.obj[o], S[a]):
                     st = 0
-                self.calls[q] = (o, st, S[a])
+                self.seq += 1
+                self.calls[q] = (o, st, S[a], self.seq)
             self.emit("call %d %d %d %d %d" % (q, o, st, a, b))
         elif k == "rmcall":
             q = r.below(NCALL)
@@ -276,13 +279,7 @@ class Gen:
                     self.calls[q] = None
             self.emit("rmall %d" % o)
         elif k == "sweep":
-            for q in range(NCALL):
-                c = self.calls[q]
-                if c is not None:
-                    o, st, a = c
-                    if st and self.obj[o] is not None and self.obj[o].size == 0:
-                        self.obj[o].items[q] = a
-                self.calls[q] = None
+            self.sweep()
             self.emit("sweep")
         elif k == "sent":
             ao = self.alive_objs()
@@ -363,8 +360,9 @@ class Gen:
             o = r.choice(ao)
             for q in r.shuffle(list(range(NCALL)))[:r.range(1, 3)]:
                 if self.calls[q] is None:
-                    self.calls[q] = (o, 0, None)
-                    self.emit("call %d %d %d %d %d" % (q, o, r.below(2), self.pick_slot(), self.pick_slot()))
+                    self.seq += 1
+                    self.calls[q] = (o, 0, None, self.seq)
+                    self.emit("call %d %d %d %d %d" % (q, o, r.below(4), self.pick_slot(), self.pick_slot()))
             if r.chance(1, 2):
                 q = r.below(NSENT)
                 if self.sents[q] is None:
@@ -388,8 +386,7 @@ class Gen:
                             self.obj[oo].size = 2
                             self.obj[oo].items = {}
                 elif x == "sweep":
-                    for q in range(NCALL):
-                        self.calls[q] = None
+                    self.sweep()
                 else:
                     self.inp = False
                 self.emit(x)
@@ -430,6 +427,20 @@ class Gen:
             self.emit("err %d %d" % (self.pick_slot(), self.pick_slot()))
         elif k == "efun":
             self.emit("efun %d %d %d" % (r.below(NEFUN), self.pick_slot(), self.pick_slot()))
+
+    def sweep(self):
+        # the newest call runs first (new_call_out inserts in front of the calls due at the same time)
+        for q in sorted([q for q in range(NCALL) if self.calls[q] is not None], key=lambda q: -self.calls[q][3]):
+            o, st, a, _ = self.calls[q]
+            if self.obj[o] is not None and self.obj[o].size == 0:
+                if st == 1:
+                    self.obj[o].items[q] = a
+                elif st == 3:
+                    self.obj[o].size = 1
+                    for x in range(NSENT):
+                        if self.sents[x] == o:
+                            self.sents[x] = None
+            self.calls[q] = None
 
     def teardown(self):
         """release every holder: afterwards the counters must be back at the baseline"""
@@ -693,6 +704,17 @@ class C06(Prop):
         mk("program-unload-no-clones", "unit", ["unload 0", "newarr 0 1", "unload 1", "free 0"])
         mk("program-unload-pending", "unit", ["newobj 0", "newobj 1", "newarr 0 2", "call 0 0 1 0 0", "sent 0 1 0 0", "dest 0", "unload 0",
                                               "cleanup", "unload 0", "sweep", "dest 1", "cleanup", "drop 0", "drop 1", "free 0"])
+        for mode in ("unit", "lpc"):
+            # a call_out callback that raises an error: its arguments are popped by the error recovery of call_out()
+            mk("callout-callback-raises-" + mode, mode,
+               ["newobj 0", "newarr 0 2", "newmap 1", "call 0 0 2 0 1", "call 1 0 1 1 0", "call 2 0 2 1 1", "free 0", "sweep",
+                "getvar 3 0 1", "free 1", "free 3", "call 3 0 2 3 3", "dest 0", "sweep", "cleanup", "drop 0"])
+            # a callback that destructs its own object: the newest call runs first, the older calls of the same owner are
+            # dropped; the object may be an argument of the call and (unit mode) sit on the value stack
+            mk("callout-callback-destructs-" + mode, mode,
+               ["newobj 0", "newobj 1", "newarr 0 2", "oref 2 0", "push 2", "sent 0 0 0 0", "inp 0 0 0", "call 0 0 1 0 0", "call 1 0 3 0 2",
+                "call 2 1 1 0 0", "call 3 1 3 2 2", "free 0", "sweep", "pop", "free 2", "input", "cleanup", "drop 0", "getvar 4 1 2",
+                "free 4", "drop 1", "cleanup"])
         for mode in ("unit", "lpc"):
             # pending call_outs with arguments whose owner is destructed before they are due: dropped by the sweep
             mk("callout-owner-destructed-" + mode, mode,
